@@ -29,6 +29,14 @@ pub fn c17(g: &mut G) {
     let klen = if g.thorough { 4 } else { 3 };
     let qlen = if g.thorough { 3 } else { 2 };
     let mut keys: Vec<Vec<u8>> = strings_over(&LEV_ALPHABET, klen).into_iter().map(|s| s.into_bytes()).collect();
+    // characters of the same UTF-8 length and the same FINAL byte as alphabet members
+    // (© Щ ~ é: .. A9; ♃ 惃 ~ ☃: .. .. 83; 😃 𠘃: .. .. .. 83)
+    let confusable: Vec<char> = vec!['©', 'Щ', '♃', '惃', '😃', '𠘃'];
+    let mut ext: Vec<char> = LEV_ALPHABET.to_vec();
+    ext.extend(confusable.iter());
+    for s in strings_over(&ext, 2) {
+        keys.push(s.into_bytes());
+    }
     keys.sort();
     keys.dedup();
     g.emit(build_line("set", 0, "default", "seq", &add_calls(&keys)));
@@ -67,6 +75,9 @@ pub fn c17(g: &mut G) {
             let ks: String = k.into_iter().collect();
             g.emit(format!("aut lev:{}:{} {}", hex(q.as_bytes()), d, hex(ks.as_bytes())));
         }
+    }
+    if g.thorough {
+        g.emit("!levbig 400 2".to_string());
     }
     // state limits from 1 upward
     for q in ["", "a", "é", "aé", "é☃😀", "foo"] {
@@ -228,6 +239,12 @@ pub fn c20(g: &mut G) {
                         b[at..at + 8].copy_from_slice(&(g.rng.next() >> g.rng.below(64)).to_le_bytes());
                     }
                     g.emit(format!("open {}", hex(&b)));
+                    // the same garbage sealed with a CORRECT checksum: verify() gets past the CRC
+                    if v == 3 && foot == 4 && len >= 36 {
+                        let c = mask(crc32c_bitwise(&b[..len - 4]));
+                        b[len - 4..].copy_from_slice(&c.to_le_bytes());
+                        g.emit(format!("open {}", hex(&b)));
+                    }
                 }
             }
         }
